@@ -141,7 +141,7 @@ CLAIMS = {
         "converted and in range, else EReadError (std::sto* by their documented prefix-parsing contract); read_bool/read_integer accept exactly 0/1 resp. the integers in [min,max]; "
         "read_block(name,.,scale) reads EVERY block of that name in file order whose Q matches the scale (later assignments override, split entries are all taken, other scales and names "
         "ignored); read_scale never reads a field the header line does not have; is_at_scale = (scale~0 or |scale-Q|<0.01).  Two obligations failed on the pinned tree with replayed "
-        "counterexamples (tokens with trailing characters; out-of-range float->int conversion) and were repaired by fix: commits.",
+        "counterexamples (tokens with trailing characters; out-of-range float->int conversion) and were repaired by fix: commits.  FILL LAYER: fill_slha, fill_gm2calc and fill(SM | Gauge_basis | Mass_basis | Config_options) read exactly the documented blocks, each through the documented tuple processor into the documented target or matrix parameter; HMIX, AE, AU, AD, MSOFT with the scale of the HMIX header, everything else without a scale; Mu, B mu = mA^2 tb/(1+tb^2), the scale and alpha (only if positive) are stored as documented; the Wolfenstein parameters reach set_ckm_from_wolfenstein in the documented order.",
    note=NOTE_COMMON + "SLHAea (tokenizer, comments, whitespace, block-name case folding, ordered containers) enters by an assumed contract: layout independence below the (block,key)->value level is "
         "SLHAea's and is not claimed; block layouts are explored as representative structures with symbolic values, not for all files.",
    technique="effect contracts by symbolic execution of extracted readers + z3; library containers by assumed (Python-modelled) contracts; exception-effect inference", design='5 C13'),
